@@ -363,6 +363,9 @@ func StatementProcessor(gs *gripql.GraphStatement, db gdbi.GraphInterface, ps *p
 				return nil, fmt.Errorf("duplicate aggregation name '%s' found; all aggregations must have a unique name", a.Name)
 			}
 			aggs[a.Name] = a
+			if a.Aggregation == nil {
+				return nil, fmt.Errorf("%s uses an unknown aggregation type", a.Name)
+			}
 		}
 		ps.LastType = gdbi.AggregationData
 		return &aggregate{stmt.Aggregate.Aggregations}, nil
